@@ -191,6 +191,12 @@ def run(run_, ctx):
     if len(walkroot) > 1:
         # a forwarding wrapper and the walker proper have the same signature: the walker is the one that recurses
         rec = [f for f in walkroot if self_recursive(f)]
+        if len(rec) > 1:
+            # the walk split over mutually recursive functions of the same signature: the walker is the one entered from outside the cycle
+            # (the others are analysed in place, as part of it)
+            inside = set(g.canon for r in rec for g in [r] + [h for h in fns if h.canon.startswith(r.canon + "::{closure")])
+            entered = [r for r in rec if any(r.canon in callee_canons(g) for g in fns if g.canon not in inside)]
+            rec = entered if len(entered) == 1 else rec
         walkroot = rec if len(rec) == 1 else walkroot
     # ---- E: entry points (hand-written, in the vocabulary of the semantic summaries; helpers stay calls here) --------------------------
     byk = {summ.fn_key(f): f for f in fns}
